@@ -84,6 +84,8 @@ package protocol
 //@   alias dst
 //@   modifies spare(dst), qk
 //@   frame-prop C03
+//@   replay-import github.com/cloudwego/hertz/internal/bytesconv
+//@   replay-go al := []byte{'%', '+', ' ', 'A', '0', '/', 0xff, 0, '&', '=', 'a', 'G'}; var rec func(x []byte, d int); rec = func(x []byte, d int) { e := bytesconv.AppendQuotedArg(nil, x); r := decodeArgAppend(nil, e); if !bytes.Equal(r, x) { fmt.Printf("VCGO-VIOLATED decodeArgAppend(AppendQuotedArg(%q)=%q) = %q\n", x, e, r); panic("stop") }; if d == 0 { return }; for _, c := range al { rec(append(append([]byte{}, x...), c), d-1) } }; rec(nil, 4)
 //@   allocates
 //@   requires @C17 qok ==> isArgEncoding(src) && !sameArray(dst, src)
 //@   ghostset-at-entry qk = 0
@@ -129,6 +131,8 @@ package protocol
 //@   allocates
 //@   modifies qx, qpos, qn, qfs, qk, qok
 //@   ghostset after AppendQuotedArg#0: qok = true
+//@   replay-import github.com/cloudwego/hertz/internal/bytesconv
+//@   replay-go al := []byte{'%', '+', ' ', 'A', '0', '/', 0xff, 0, '&', '=', 'a', 'G'}; var rec func(x []byte, d int); rec = func(x []byte, d int) { e := bytesconv.AppendQuotedArg(nil, x); _ = e; r := verifArgRoundTrip(x); if !bytes.Equal(r, x) { fmt.Printf("VCGO-VIOLATED decodeArgAppend(AppendQuotedArg(%q)=%q) = %q\n", x, e, r); panic("stop") }; if d == 0 { return }; for _, c := range al { rec(append(append([]byte{}, x...), c), d-1) } }; rec(nil, 4)
 //@   top-ensures @C17 len(r) == len(x) && forall(k, 0, len(x), r[k] == qx[k] && qx[k] == old(x[k]))
 
 //@ func decodeCookieArg(dst, src, skipQuotes) r
